@@ -72,7 +72,13 @@ GTYPE = {"str": "str", "set": "list str", "strlist": "list str", "dict:str": "di
 
 WSREGEX_TEXT = r"\$\(([-!\$%\^&\*\(\)_\+\|~=`{}\[\]:;<>\?,\.\/\w]+)\.workspace\)"
 ALL_COMBOS_TEXT = r"_\*|\*"
-PARAM_REGEX_TEXT = r"\{}\({}(?:\.\w+)?\)"
+# ParameterGenerator._get_used_parameters builds  PARAM_REGEX_TEXT.format(re.escape(self.token), key).
+# HYPOTHESIS of the tie (stated at StageOps.re_param_token_found): the model fixes the parameter token to
+# the default "$"; re.escape("$") = "\\$", so for that token the pattern is  \$\(KEY(?:\.\w+)?\)  -- exactly
+# the regex the scanner Expand.uses_key was written for (and the same as the former text r"\{}\(..." with
+# the raw token).  Other tokens are tied by the correspondence run of C08 only.
+PARAM_REGEX_TEXT = r"{}\({}(?:\.\w+)?\)"
+PARAM_REGEX_ARGS = "re.escape(self.token), %s"
 
 _CTX = re.compile(r", (?:Load|Store|Del)\(\)")
 
@@ -915,7 +921,7 @@ def gen_used_rec(cls):
     if not (isinstance_test(t1, "item", "str") and isinstance_test(t2, "item", "list") and
             isinstance_test(t3, "item", "dict")):
         bad(t1, "the cases must be isinstance(item, str) / (item, list) / (item, dict), in this order")
-    # str: for key in self.parameters.keys(): r = REGEX.format(self.token, key); m = re.findall(r, item); if m: params.add(key)
+    # str: for key in self.parameters.keys(): r = REGEX.format(re.escape(self.token), key); m = re.findall(r, item); if m: params.add(key)
     if len(b1) != 1 or not isinstance(b1[0], ast.For) or b1[0].orelse or not isinstance(b1[0].target, ast.Name) or \
             D(b1[0].iter) not in (P("self.parameters.keys()"), P("self.parameters")):
         bad(t1, "the str case must be `for key in self.parameters.keys(): ..`")
@@ -925,11 +931,11 @@ def gen_used_rec(cls):
                               for x in sb[:2]) and isinstance(sb[2], ast.If)
     if ok:
         r, m = sb[0].targets[0].id, sb[1].targets[0].id
-        ok = D(sb[0].value) == P("%r.format(self.token, %s)" % (PARAM_REGEX_TEXT, key)) and \
+        ok = D(sb[0].value) == P("%r.format(%s)" % (PARAM_REGEX_TEXT, PARAM_REGEX_ARGS % key)) and \
             D(sb[1].value) == P("re.findall(%s, item)" % r) and D(sb[2].test) == P(m) and not sb[2].orelse and \
             [D(x) for x in effective(cx, sb[2].body)] == [P("params.add(%s)" % key, "exec")]
     if not ok:
-        bad(b1[0], "the str case is not `r = r\"%s\".format(self.token, key); m = re.findall(r, item); "
+        bad(b1[0], "the str case is not `r = r\"%s\".format(re.escape(self.token), key); m = re.findall(r, item); "
                    "if m: params.add(key)`" % PARAM_REGEX_TEXT)
 
     def rec_loop(b, iter_src):
